@@ -203,7 +203,11 @@ def step (st : Option KV.TrieLM.Trie) (line : String) : Option KV.TrieLM.Trie ×
           let M := KV.TrieLM.ofTableG b.table bound order start q (kind % 2 == 1) bhik
           let real := natOfBytes bs <<< (8 * start)
           let x := M.mem ^^^ real
-          if x = 0 then (some M, s!"tbg ok kind={kind} equal")
+          -- arithmetic assumption of C03TrieG.train_markOK on the real IEEE quantiser: no trained back-off centre is -0.0
+          let negz := match q with
+            | none => 0
+            | some qs => ((List.range (order - 2)).map fun t => (((qs.btab t).drop 2).filter (· == KV.TrieLM.noExtensionBits)).length).sum
+          if x = 0 then (some M, s!"tbg ok kind={kind} negzero={negz} equal")
           else
             let low := Nat.log2 (x - (x &&& (x - 1)))
             (some M, s!"tbg ok kind={kind} diff byte={low / 8 - start} model={(M.mem >>> (8 * (low / 8))) % 256} real={(real >>> (8 * (low / 8))) % 256}")
